@@ -6,10 +6,11 @@ HEADER = '''(* C05  Register constraints are an invariant of every checked-opera
    Proved: InvB is preserved by EVERY checked operation - typed set, bit set, bit clear, block write (across area borders) and sanitise, accepted
    or refused - and hence by every history of them; under it every value a get delivers satisfies its register's constraint.
    Outside the invariant by construction: registers with the always-failing constraint (their default only validates during initialisation). *)'''
-IMPORTS = '''From Ufw Require Import Base.Bits Model.RegTable Proof.RegLemmas Proof.RegInitLemmas Proof.RegInvariant Proof.RegMemory Proof.RegBlockInv.
+IMPORTS = '''From Ufw Require Import Base.Bits Model.RegTable Proof.RegLemmas Proof.RegInitLemmas Proof.RegInvariant Proof.RegMemory Proof.RegBlockInv Proof.RegInitInv.
 From Coq Require Import Bool Lia.
 Local Open Scope N_scope.'''
 ITEMS = [
+ ('C05_invariant_established_by_init', 'init_establishes_invariant', 'the invariant is established by a successful initialisation of a plain table (memory-backed, default-loading areas; no always-failing constraint)'),
  ('C05_history_invariant_all', 'history_invariant_all', 'the invariant survives every history of checked operations: typed set, bit set, bit clear, block write, sanitise'),
  ('C05_history_get_all', 'history_get_all', 'after any such history every value a get delivers satisfies the constraint of its register'),
  ('C05_block_write_preserves', 'block_write_preserves', 'one block write, accepted or refused, across area borders'),
